@@ -27,4 +27,25 @@ func init() {
 			p.Rule += " Later additions: " + m + "."
 		}
 	}
+	// rounds ten and eleven: caches, pools and other state that survives an evaluation
+	state := map[string]string{
+		"C01": "wrapper types (reflect.Value, a struct with Interface()) printed holding trusted HTML and holding strings in one process",
+		"C02": "a UTF-8 byte order mark in literal text; every 61st template follows a render that ended badly after writing text (error, recovered panic of the caller's context, failing helper block or partial, parse error)",
+		"C03": "an ordinary template parsed and executed after every rejected input and every deep ladder",
+		"C04": "nineteen expressions x four statement forms parsed once and executed with about 100 kinds of value in turn, twice",
+		"C05": "faults reached through one call site that has just called functions that cannot fail",
+		"C07": "paths of any length that start at an unknown name or a nil variable",
+		"C08": "iterables that mention variables executed with four data sets (one parsed template, cache on); a helper that runs its block 1-3 times per call with break / continue in any pass; iterators kept in variables looped over two and three times",
+		"C11": "field names repeated at several embedding depths against reflect's FieldByName; paths whose later steps use variables that change between evaluations",
+		"C12": "helper contexts taken by pointer or by value, kept, and replayed after 1-4 later calls",
+		"C13": "methods of four same-named struct types against MethodByName in shuffled orders; fourteen near twins of one text (line endings, BOM, blanks, case, NUL, composed letters) with the cache on",
+		"C15": "prefix lines with a line break right after each lexical special (escaped opener, backslashes, quotes, comments, literals over lines)",
+		"C17": "partial and layout names with dots in directory parts",
+		"C19": "300 histories of several live counting iterators, made and asked in any order, each against its model sequence",
+	}
+	for id, m := range state {
+		if p := core.Lookup(id); p != nil {
+			p.Rule += " Rounds ten and eleven: " + m + "."
+		}
+	}
 }
